@@ -356,18 +356,21 @@ class ScalarChecker:
         conv_num = num * ratio
         slack = 2e-8 * abs(conv_num / den)
         aff = um.offset[u] != 0 or um.offset[v] != 0
+        # the threshold band: the library computes the converted numerator its own way, so at |numerator'| ~ 1e-8
+        # (1 mPa in bar, 10 C/m3 in C/mm3, ...) either side of the threshold may be taken
+        tiny = 0 < abs(conv_num) < 2e-8
         if not core.close(got, want, S, 1e-12, slack):
             key = "fraction_scalar_conversion_differs_from_scalar:%s" % ("affine" if aff else "scale")
-            if 0 < abs(conv_num) < 1e-8:
+            if tiny:
                 # the known finding's bug model: a converted numerator below the 1e-8 threshold is dropped
-                predicted = db.Convert(qt, u, v, float(number)) + normalise(conv_num) / den
+                predicted = db.Convert(qt, u, v, float(number)) + (normalise(conv_num) if abs(conv_num) < 0.5e-8 else 0.0) / den
                 if core.close(got, predicted, S, 1e-12):
                     key = "fraction_scalar_conversion:converted_numerator_below_1e-8_dropped"
             ctx.record(key, case, "FractionScalar(%r, %r).GetValue(%r) = %r (%r); Scalar(%r, %r).GetValue(%r) = %r" % (fv, u, v, got_fv, got, x, u, v, want))
         # db.Convert with a FractionValue
         ctx.ev()
         r = db.Convert(qt, u, v, fv)
-        if u != v and not core.close(float(r), want, S, 1e-12, slack) and not (0 < abs(conv_num) < 1e-8):
+        if u != v and not core.close(float(r), want, S, 1e-12, slack) and not tiny:
             ctx.record("db_convert_fraction_value_differs", case, "db.Convert(%r,%r,%r,%r) = %r, Scalar route %r" % (qt, u, v, fv, r, want))
         if got_fv.__class__ is not FractionValue:
             ctx.record("fraction_scalar_getvalue_type", case, "GetValue returned %r" % type(got_fv))
